@@ -18,7 +18,8 @@ PROP = 'C02'
 
 FALLBACKS = ['none', 'list', 'fn']
 RUN_ORIG = [False, True]
-SUBSTITUTES = [('none',), ('value', 5), ('value', 0), ('value', ''), ('value', []), ('value', {}), ('value', False), ('callable', 'from-callable')]
+SUBSTITUTES = [('none',), ('value', 5), ('value', 0), ('value', ''), ('value', []), ('value', {}), ('value', False), ('callable', 'from-callable'),
+               ('callable', None), ('callable', 0)]
 FAIL_ON = [True, False]
 DEFAULTS = [None, 'dflt']
 ENABLED = [False, True]
@@ -32,15 +33,15 @@ NCHUNKS = (NROWS + CHUNK - 1) // CHUNK
 META = {
     'engine': 'recplay',
     'level': 'exploration',
-    'level_text': ('The missing-key option space (fallback none/list/callable x run-original x 8 substitutes incl. the falsy ones 0, "", [], {}, '
-                   'False and a callable x fail-on-missing-result x default result x recording enabled/disabled = 384 rows) is enumerated '
+    'level_text': ('The missing-key option space (fallback none/list/callable x run-original x 10 substitutes incl. the falsy ones 0, "", [], {}, '
+                   'False and a callable x fail-on-missing-result x default result x recording enabled/disabled = 480 rows) is enumerated '
                    'completely against a fixed program pair on all three cassettes; beyond it seeded random pairs (P, P\') with present and '
                    'absent requests, renamed aliases with fallback lists, 1-3 replays.  A reference model of the documented policy predicts '
                    'every call; wrapped bodies are journaled (tripwire); a spy plus a byte snapshot prove the cassette is untouched.'),
     'level_note': 'Trusted: the reference policy model in this file (about 60 lines), the environment journal, byte snapshots of the stores. Programs without nested interceptions (run-original of an outer body re-enters interception).',
     'rule': ('evaluation = one (P, P\', options) pair replayed 1-3 times; non-trivial = P\' made at least one request that is absent from the '
-             'recording or was answered through a fallback alias; distinct = distinct event-log digest. exhaustive=true refers to the 384-row option table.'),
-    'exhaustive_part': 'option table of 384 rows on a fixed program pair (all combinations listed in level_text), each on a tape-chosen cassette',
+             'recording or was answered through a fallback alias; distinct = distinct event-log digest. exhaustive=true refers to the 480-row option table.'),
+    'exhaustive_part': 'option table of 480 rows on a fixed program pair (all combinations listed in level_text), each on a tape-chosen cassette',
     'table_chunks': {'quick': NCHUNKS, 'thorough': NCHUNKS},
     'assumptions': ['value_when_missing=None means "no substitute configured" (the documented default)', 'no nested interceptions in P\'',
                     'service code does not catch the framework\'s own exceptions'],
